@@ -93,16 +93,20 @@ func c16Routing(intercept string, L int) *explore.Scenario {
 			var log []sent
 			seq := ""
 			for pos := 0; pos < L; pos++ {
-				c := vsched.Choose(len(srcs)*len(dsts)*2 + 1)
-				if c == len(srcs)*len(dsts)*2 {
+				c := vsched.Choose(len(srcs)*len(dsts)*3 + 1)
+				if c == len(srcs)*len(dsts)*3 {
 					break
 				}
 				src := srcs[c%len(srcs)]
 				dst := dsts[(c/len(srcs))%len(dsts)]
 				route := c/(len(srcs)*len(dsts)) == 1
+				prerec := c/(len(srcs)*len(dsts)) == 2 // arrives with a route record already (it came through another relay)
 				rpc := &env.Rpc{Id: uint64(100 + pos), Header: &goatorepo.RequestHeader{Method: "/x/Y", Source: src, Destination: dst,
 					Headers: []*goatorepo.KeyValue{{Key: "k", Value: fmt.Sprint(pos)}}}, Body: &goatorepo.Body{Data: []byte(fmt.Sprintf("payload-%d", pos))}}
 				expect := dst
+				if prerec {
+					rpc.Header.ProxyRecord = []string{"edge"}
+				}
 				if route {
 					// a return route: the proxy must follow it instead of the destination field
 					rpc.Header.ProxyNext = []string{"a"}
@@ -121,7 +125,7 @@ func c16Routing(intercept string, L int) *explore.Scenario {
 				if expect == "alias" || expect == "nowhere" {
 					expect = "" // not attached, not dialable
 				}
-				seq += fmt.Sprintf(" %s->%s(route=%v)", src, dst, route)
+				seq += fmt.Sprintf(" %s->%s(route=%v,prerec=%v)", src, dst, route, prerec)
 				orig := proto.Clone(rpc).(*env.Rpc)
 				src_ := src
 				if src == "c" {
@@ -173,14 +177,9 @@ func c16Routing(intercept string, L int) *explore.Scenario {
 					if !proto.Equal(gc, oc) {
 						vsched.Fail(fam+"|altered", "after%s: envelope %d reached %s altered beyond routing fields: %v vs %v", seq, o.GetId(), peer, gc, oc)
 					}
-					n := 0
-					for _, r := range rec {
-						if r == "proxy" {
-							n++
-						}
-					}
-					if n != 1 || len(rec) != 1 {
-						vsched.Fail(fam+"|route-record", "after%s: envelope %d carries route record %v, want the proxy's name exactly once", seq, o.GetId(), rec)
+					wantRec := append(append([]string{}, o.Header.ProxyRecord...), "proxy")
+					if fmt.Sprint(rec) != fmt.Sprint(wantRec) {
+						vsched.Fail(fam+"|route-record", "after%s: envelope %d carries route record %v, want %v (what it arrived with plus the proxy's name exactly once)", seq, o.GetId(), rec, wantRec)
 					}
 				}
 			}
